@@ -275,6 +275,10 @@ impl PacketSender {
     }
 }
 
+#[cfg(feature = "verif")]
+impl PacketSender {
+    pub fn verif_alloc(&self) -> usize { self.alloc }
+}
 
 #[cfg(test)]
 mod tests {
